@@ -4,6 +4,7 @@ pub mod args;
 pub mod httpref;
 pub mod json;
 pub mod reader;
+pub mod reqgen;
 pub mod report;
 pub mod rng;
 pub mod util;
